@@ -5,7 +5,7 @@ from .common import *  # noqa: F401,F403
 from .common import Contract, Registry, LoopSpec, BASE_ENV, INIT, COMMON_PY, bounded_sweep
 
 REGISTRY = Registry()
-LEVEL = "exploration"      # no function of this property is under a deductive contract: the evidence says so
+LEVEL = "exploration"      # the algorithm itself (_WrapNumbers.run) is not under a deductive contract: the evidence says so
 TRUSTED = ["threading.Lock gives mutual exclusion"]
 ASSUMPTIONS = ["all tuples of one key have one arity; counters are non-negative ints"]
 NOT_COVERED = ["_WrapNumbers.run's nested dict/defaultdict/set state is outside the VC generator's container model: it is "
@@ -100,3 +100,21 @@ WN = Contract("C10", COMMON_PY, "_WrapNumbers.run", env=ENV,
               replay="c10:history", note="bounded: snapshot histories against a reference model")
 BOUNDED_CONTRACTS = [WN]
 BOUNDED = [bounded_sweep(WN, "c10:history", quick=3000, thorough=100000)]
+
+
+# --- front end: when the filter is consulted and with what (same contracts as C09, registered here too) ---------------------
+from . import C09 as _c09   # noqa: E402
+
+for _kind, _qual in (("disk", "disk_io_counters"), ("net", "net_io_counters")):
+    REGISTRY.add(Contract(
+        "C10", INIT, _qual, setup=_c09.setup_front(_kind), env=ENV, configs=_c09.FRONT_CFGS,
+        ensures=[
+            "implies(k > 0 and nowrap, log == [('wrap', cache_name, True)])",       # once, own cache name, raw per-device dict
+            "implies(k == 0 or not nowrap, len(log) == 0)",                          # nowrap=False: raw values, filter not consulted
+            "implies(k > 0 and not per, forall(range(width), lambda i: result[i] == sum([raw[d][i] for d in raw])))",
+            "implies(k > 0 and per, set(result) == set(raw) and "
+            "forall(list(raw), lambda d: forall(range(width), lambda i: result[d][i] == raw[d][i])))",
+        ],
+        raises={}, canaries=["result == 5"], replay=None,
+        note="nowrap=True returns the filter's figures (consulted exactly once under this function's cache name), "
+             "nowrap=False the raw ones, per device and in total"))
